@@ -260,6 +260,7 @@ func runC09(c *Ctx) {
 	checkScopeNamespaceCreatedExclusively(c, "C09-R2")
 	checkNoCommitHookReleasesIssuingMutex(c, "C09-R1")
 	checkRowFieldReadsAtDistinctOffsets(c, "C09-R2", "waddrmgr")
+	checkAccountCacheEvictedOnlyByInvalidation(c, "C09-R2")
 	checkSameNamedParametersNotCrossed(c, "C09-R2", "waddrmgr") // the persisted next indices of the two branches are not exchanged
 	checkDryRunFlagForwardedOrFalse(c, "C09-R2")
 	// nothing but the commit callback (and the loader) moves the in-memory next index: a reader that writes a
